@@ -38,7 +38,7 @@ Spec == Init /\ [][Next]_vars
 
 \* ---- 1. enumeration -----------------------------------------------------------------
 AllClauses == {"Finite", "NonNeg", "KnotValue", "KnotScaled", "Continuity", "ContinuityScaled",
-               "Between", "BetweenScaled", "ClampFirst", "ClampLast", "ScaledClampFirst",
+               "Between", "BetweenScaled", "NearKnot", "ClampFirst", "ClampLast", "ScaledClampFirst",
                "ScaledClampLast", "ExtrapRef", "BelowFirst"}
 Emit == PrintT(<<"CASE", calc, n, p, Cur[1], Cur[2], Relations(calc, n, p, Cur[1], Cur[2])>>)
 
